@@ -778,6 +778,13 @@ func (h *handler) handleClose(ctx context.Context) {
 		h.logger.Debug("Subscriber closed", nil)
 	case <-ctx.Done():
 		// we are closing subscriber just when entire router is closed
+		select {
+		case <-h.routersCloseCh:
+			if err := h.subscriber.Close(); err != nil {
+				h.logger.Error("Failed to close subscriber", err, nil)
+			}
+		default:
+		}
 	}
 	h.stopFn()
 }
